@@ -1614,6 +1614,47 @@ func ruleInitFresh(p *Prog, r *Result) {
 			}
 			walk(cur.Block())
 		}
+		// ... at the start of its region: in a range plan a Seek to anything but the plan's Start is made only where
+		// the range has no start (a second Seek behind Seek(Start) moves the cursor out of the region again)
+		if cl == "range" {
+			var derivesStart func(v ssa.Value, d int) bool
+			derivesStart = func(v ssa.Value, d int) bool {
+				if d > 5 {
+					return false
+				}
+				if _, f, _, ok := loadedField(stripConv(v)); ok && f == "Start" {
+					return true
+				}
+				if ph, ok := v.(*ssa.Phi); ok {
+					for _, e := range ph.Edges {
+						if derivesStart(e, d+1) {
+							return true
+						}
+					}
+				}
+				return false
+			}
+			elsewhere := ""
+			for _, sx := range p.storage().ByFn[fn] {
+				if sx.Method != "Cursor.Seek" {
+					continue
+				}
+				c, ok := sx.Instr.(ssa.CallInstruction)
+				if !ok || len(c.Common().Args) == 0 || derivesStart(c.Common().Args[0], 0) {
+					continue
+				}
+				noStart := false
+				for _, a := range dominatingAtoms(sx.Instr.Block()) {
+					if _, f, _, ok := loadedField(a.X); ok && f == "Start" && a.Op == token.EQL && isNilConst(a.Y) {
+						noStart = true
+					}
+				}
+				if !noStart {
+					elsewhere = p.InstrPos(sx.Instr)
+				}
+			}
+			r.add(elsewhere == "", key+"|at-start", p.InstrPos(cur), firstNonEmpty(map[bool]string{true: "the Seek at " + elsewhere + " goes somewhere else than the range's Start although the range may have one"}[elsewhere != ""], "every Seek goes to the range's Start, or to the first key where the range has no start"))
+		}
 		r.add(unpos == "", key+"|positioned", p.InstrPos(cur), firstNonEmpty(map[bool]string{true: "Init can report success at " + unpos + " without having positioned the new cursor with Seek: what an unpositioned cursor returns is up to the storage"}[unpos != ""], "every successful return of Init lies behind a Seek on the new cursor"))
 	}
 	r.floor("cursor plans", n, 3)
@@ -1790,4 +1831,43 @@ func ruleLimitGuard(p *Prog, r *Result) {
 		}
 	}
 	r.floor("limit typestate obligations", n, 12)
+	// the two numbers of `limit s, n` are the user's: each can be the largest integer (`limit 1, 9223372036854775807`
+	// is the only way to say `everything from row s on`), so their sum is never formed - it wraps around to a
+	// negative window end. Counters are compared with each of them separately
+	userNum := func(v ssa.Value) string {
+		if _, f, _, ok := loadedField(stripConv(v)); ok && (f == "Start" || f == "Limit" || f == "Count" || f == "Offset") {
+			if bt, isB := v.Type().Underlying().(*types.Basic); isB && bt.Info()&types.IsInteger != 0 {
+				return f
+			}
+		}
+		return ""
+	}
+	sums := 0
+	for _, fn := range p.Funcs {
+		allInstrs(fn, func(in ssa.Instruction) {
+			bo, ok := in.(*ssa.BinOp)
+			if !ok || (bo.Op != token.ADD && bo.Op != token.MUL) {
+				return
+			}
+			if a, b := userNum(bo.X), userNum(bo.Y); a != "" && b != "" {
+				// guarded: behind a comparison against `<largest integer> - x`
+				guarded := false
+				for _, at := range dominatingAtoms(in.Block()) {
+					for _, side := range []ssa.Value{at.X, at.Y} {
+						if sb, ok := side.(*ssa.BinOp); ok && sb.Op == token.SUB {
+							if k, ok := constInt(sb.X); ok && k >= 1<<62 {
+								guarded = true
+							}
+						}
+					}
+				}
+				if guarded {
+					return
+				}
+				sums++
+				r.hit(fmt.Sprintf("%s|user-sum#%d", p.FName(fn), sums), p.InstrPos(in), fmt.Sprintf("%s and %s are both numbers the user wrote; their sum or product overflows for `limit s, <largest integer>`", a, b))
+			}
+		})
+	}
+	r.note("sums_of_two_user_numbers", sums)
 }
